@@ -84,6 +84,12 @@ theorem gen_strict_mono (calls : List (Int × Nat)) :
     obtain ⟨q, _, rfl⟩ := List.mem_map.mp hp
     exact yieldOf_lt q.2)
 
+/-- "Unique": no two calls of one generator ever return the same id — whatever the clock does
+(standing still, going backwards, jumping) and whatever types are requested. -/
+theorem gen_ids_unique (calls : List (Int × Nat)) :
+    (genIds 0 (calls.map fun p => (p.1, yieldOf p.2))).Nodup :=
+  (gen_strict_mono calls).imp (fun h => by omega)
+
 /-- Client-typed ids (the only type `Conn` asks for) are divisible by 4. -/
 theorem gen_client_ids_mod4 (clocks : List Int) :
     ∀ id ∈ genIds 0 (clocks.map fun c => (c, yieldOf typFromClient)), id % 4 = 0 :=
